@@ -32,7 +32,35 @@ def all_keys():
                     keys.append(f"{tname}|{fname}|{','.join(sig)}|debug=1")
     for name in APMATH:
         keys.append(f"lax|apmath:{name}||")
+    for tname in ("python", "numpy", "stablehlo", "xla_client", "cpp"):
+        for name in USERFUNCS:
+            if name == "scaled" and tname != "xla_client":
+                continue  # needs a context with a default constant type
+            keys.append(f"{tname}|user:{name}|{'|'}".replace("||", "|" + ",".join(USER_SIG[tname] for _ in range(USERFUNCS[name][1])) + "|"))
     return sorted(keys)
+
+
+def _uf_scaled(ctx, x):
+    return x * ctx.sqrt(2)  # a context operation on a bare number: a temporary symbol is made for it
+
+
+def _uf_named(ctx, x, y):
+    t = (x * y).reference("t")
+    u = (x + y).reference("t")
+    return ctx(t * t + u * u + t)
+
+
+def _uf_literals(ctx, x, y):
+    return (x * 0.1 + ctx.constant(2, x)) / (y - 0.1) + ctx.constant(2, y) * ctx.constant("largest", x)
+
+
+def _uf_selects(ctx, x, y):
+    c = x < y
+    return ctx.select(ctx.logical_or(c, ctx.logical_or(x == y, y < 0.5)), ctx.select(c, x, y), ctx.sqrt(abs(x)) + ctx.exp(y))
+
+
+USERFUNCS = {"scaled": (_uf_scaled, 1), "named": (_uf_named, 2), "literals": (_uf_literals, 2), "selects": (_uf_selects, 2)}
+USER_SIG = {"python": ":float", "numpy": ":float32", "stablehlo": ":float", "xla_client": ":float", "cpp": ":float32"}
 
 
 APMATH = {
@@ -63,7 +91,8 @@ def generate(key, ctx=None):
         alt = tname == "xla_client"
         if ctx is None:
             ctx = fa.Context(paths=[fa.algorithms], enable_alt=alt, default_constant_type="FloatType" if alt else None)
-        g = ctx.trace(getattr(fa.algorithms, fname), *sig).rewrite(target, rewrite)
+        func = USERFUNCS[fname.split(":")[1]][0] if fname.startswith("user:") else getattr(fa.algorithms, fname)
+        g = ctx.trace(func, *sig).rewrite(target, rewrite)
         if opt == "debug=1":
             return g.tostring(target, debug=1)
         return g.tostring(target)
